@@ -2,6 +2,7 @@
 
 COMMON_MNV = [
     "modelled, not verified: Go runtime semantics of channels/select/mutex/context; google.golang.org/grpc status+metadata+codec; google.golang.org/protobuf",
+    "harness only (no model): the transport sweep over channel / websocket / HTTP transports (topo.go); its failures over real sockets are reported when a second fresh run fails as well",
 ]
 
 PROPS = {
